@@ -440,4 +440,196 @@ theorem enum_complete_in_box (cond : V2 → Option Elem) (q : Int) (tmc : V2) (b
     simp only [Option.map_some, Option.some.injEq] at hres
     rw [← hres, hfound]
 
+
+/-! ### what the box contains -/
+
+/-- integer core of the x-range bound: `(2ax+by)²·a ≤ y²(4a²c-b²) + 4a²N` on the ellipse (uses `b² < 4ac`, `a ≥ 1`) -/
+theorem x_core {a bq c n x y : Int} (ha : 0 < a) (hdisc : 0 < a * c * 4 - bq * bq)
+    (h : a * x * x + bq * x * y + c * y * y ≤ n) :
+    (2 * a * x + bq * y) * (2 * a * x + bq * y) * a
+      ≤ y * y * (2 * a * (2 * a) * c - bq * bq) + 2 * a * (2 * a) * n := by
+  have h1 : 0 ≤ y * y := mul_self_nonneg y
+  have h2 : (a + 1) * (bq * bq) ≤ 8 * (a * a) * c := by
+    have hb : bq * bq ≤ 4 * a * c := by linarith
+    have hbb : 0 ≤ bq * bq := mul_self_nonneg bq
+    have : (a + 1) * (bq * bq) ≤ 2 * a * (bq * bq) := by nlinarith
+    have : 2 * a * (bq * bq) ≤ 2 * a * (4 * a * c) := by nlinarith
+    nlinarith
+  have h3 : 0 ≤ (2 * a * (2 * a)) * (n - (a * x * x + bq * x * y + c * y * y)) := by
+    apply Int.mul_nonneg <;> nlinarith
+  have h4 : 0 ≤ (y * y) * (8 * (a * a) * c - (a + 1) * (bq * bq)) := Int.mul_nonneg h1 (by linarith)
+  nlinarith
+
+/-- the form is non-negative when `a > 0`, `4ac - b² > 0` -/
+theorem qf_nonneg {a bq c x y : Int} (ha : 0 < a) (hdisc : 0 < a * c * 4 - bq * bq) :
+    0 ≤ a * x * x + bq * x * y + c * y * y := by
+  have h1 : 0 ≤ (2 * a * x + bq * y) * (2 * a * x + bq * y) := mul_self_nonneg _
+  have h2 : 0 ≤ (a * c * 4 - bq * bq) * (y * y) := Int.mul_nonneg (Int.le_of_lt hdisc) (mul_self_nonneg y)
+  have h3 : 4 * a * (a * x * x + bq * x * y + c * y * y)
+      = (2 * a * x + bq * y) * (2 * a * x + bq * y) + (a * c * 4 - bq * bq) * (y * y) := by ring
+  by_contra hneg
+  have : 4 * a * (a * x * x + bq * x * y + c * y * y) < 0 := by
+    apply Int.mul_neg_of_pos_of_neg <;> omega
+  omega
+
+/-- **x-range**: for every row `y` and every integer `x` on the ellipse `a x² + b x y + c y² ≤ N` the two bound
+    generations succeed and `x` lies strictly inside the enumerated range `[-x_v, bound_x]`. -/
+theorem x_range_covers {a bq c n x y : Int} (ha : 0 < a) (hdisc : 0 < a * c * 4 - bq * bq)
+    (h : a * x * x + bq * x * y + c * y * y ≤ n) :
+    ∃ bx xv : Int,
+      boundGen (y * y * (2 * a * (2 * a) * c - bq * bq) + 2 * a * (2 * a) * n) (2 * a * (2 * a) * a) (-(bq * y)) (2 * a)
+        = some (some bx) ∧
+      boundGen (y * y * (2 * a * (2 * a) * c - bq * bq) + 2 * a * (2 * a) * n) (2 * a * (2 * a) * a) (-(-(bq * y))) (2 * a)
+        = some (some xv) ∧ -xv < x ∧ x < bx := by
+  have hcore := x_core ha hdisc h
+  have hn : 0 ≤ n := le_trans (qf_nonneg ha hdisc) h
+  have hA3 : 0 < 2 * a * (2 * a) * a := by positivity
+  have h2a : (2 * a) ≠ 0 := by omega
+  have hc : 0 < c := by
+    by_contra hc
+    have : a * c ≤ 0 := Int.mul_nonpos_of_nonneg_of_nonpos (Int.le_of_lt ha) (by omega)
+    have : 0 ≤ bq * bq := mul_self_nonneg bq
+    omega
+  have hf : 0 ≤ 2 * a * (2 * a) * c - bq * bq := by nlinarith
+  have hprod : 0 ≤ y * y * (2 * a * (2 * a) * c - bq * bq) + 2 * a * (2 * a) * n := by
+    have := Int.mul_nonneg (mul_self_nonneg y) hf
+    have : 0 ≤ 2 * a * (2 * a) * n := by positivity
+    omega
+  obtain ⟨bx, hbx, hbxu⟩ := boundGen_upper (numB := -(bq * y)) hA3 h2a hprod
+  obtain ⟨xv, hxv, hxvu⟩ := boundGen_upper (numB := -(-(bq * y))) hA3 h2a hprod
+  refine ⟨bx, xv, hbx, hxv, ?_, ?_⟩
+  all_goals
+    have haq : (0 : ℚ) < a := by exact_mod_cast ha
+    have ht0 : (0 : ℚ) ≤ |((2 * a * x + bq * y : Int) : ℚ)| / (2 * a) := by positivity
+    have htl : (|((2 * a * x + bq * y : Int) : ℚ)| / (2 * a)) ^ 2 * ((2 * a * (2 * a) * a : Int) : ℚ)
+        ≤ ((y * y * (2 * a * (2 * a) * c - bq * bq) + 2 * a * (2 * a) * n : Int) : ℚ) := by
+      have e : (|((2 * a * x + bq * y : Int) : ℚ)| / (2 * a)) ^ 2 * ((2 * a * (2 * a) * a : Int) : ℚ)
+          = (((2 * a * x + bq * y) * (2 * a * x + bq * y) * a : Int) : ℚ) := by
+        rw [div_pow, sq_abs]; push_cast; field_simp
+      rw [e]; exact_mod_cast hcore
+  · have := hxvu _ ht0 htl
+    have hle : -((x : ℚ)) ≤ |((2 * a * x + bq * y : Int) : ℚ)| / (2 * a) + ((-(-(bq * y)) : Int) : ℚ) / ((2 * a : Int) : ℚ) := by
+      have habs : -((2 * a * x + bq * y : Int) : ℚ) ≤ |((2 * a * x + bq * y : Int) : ℚ)| := neg_le_abs _
+      have : -((x : ℚ)) = -((2 * a * x + bq * y : Int) : ℚ) / (2 * a) + ((-(-(bq * y)) : Int) : ℚ) / ((2 * a : Int) : ℚ) := by
+        push_cast; field_simp; ring
+      rw [this]
+      have : -((2 * a * x + bq * y : Int) : ℚ) / (2 * a) ≤ |((2 * a * x + bq * y : Int) : ℚ)| / (2 * a) :=
+        div_le_div_of_nonneg_right habs (by positivity)
+      linarith
+    have : -(x : ℚ) < xv := lt_of_le_of_lt hle this
+    have : ((-xv : Int) : ℚ) < x := by push_cast; linarith
+    exact_mod_cast this
+  · have := hbxu _ ht0 htl
+    have hle : (x : ℚ) ≤ |((2 * a * x + bq * y : Int) : ℚ)| / (2 * a) + ((-(bq * y) : Int) : ℚ) / ((2 * a : Int) : ℚ) := by
+      have habs : ((2 * a * x + bq * y : Int) : ℚ) ≤ |((2 * a * x + bq * y : Int) : ℚ)| := le_abs_self _
+      have : (x : ℚ) = ((2 * a * x + bq * y : Int) : ℚ) / (2 * a) + ((-(bq * y) : Int) : ℚ) / ((2 * a : Int) : ℚ) := by
+        push_cast; field_simp; ring
+      rw [this]
+      have : ((2 * a * x + bq * y : Int) : ℚ) / (2 * a) ≤ |((2 * a * x + bq * y : Int) : ℚ)| / (2 * a) :=
+        div_le_div_of_nonneg_right habs (by positivity)
+      linarith
+    have : (x : ℚ) < bx := lt_of_le_of_lt hle this
+    exact_mod_cast this
+
+
+/-- **y-range**: `bound_y` strictly bounds every `y` with `(4a²c - b²) y² ≤ 4a² N` (the inequality the code uses). -/
+theorem y_range_covers {a bq c n y : Int} (ha : 0 < a) (hdisc : 0 < a * c * 4 - bq * bq) (hn : 0 ≤ n)
+    (hy : (2 * a * (2 * a) * c - bq * bq) * (y * y) ≤ 2 * a * (2 * a) * n) :
+    ∃ boundY : Int, boundGen (2 * a * (2 * a) * n) (2 * a * (2 * a) * c - bq * bq) 0 1 = some (some boundY) ∧
+      -boundY < y ∧ y < boundY := by
+  have hc : 0 < c := by
+    by_contra hc
+    have : a * c ≤ 0 := Int.mul_nonpos_of_nonneg_of_nonpos (Int.le_of_lt ha) (by omega)
+    have : 0 ≤ bq * bq := mul_self_nonneg bq
+    omega
+  have hf : 0 < 2 * a * (2 * a) * c - bq * bq := by nlinarith
+  have hnum : 0 ≤ 2 * a * (2 * a) * n := by positivity
+  obtain ⟨by', hby, hbyu⟩ := boundGen_upper (numB := 0) hf (show (1 : Int) ≠ 0 by decide) hnum
+  refine ⟨by', hby, ?_, ?_⟩
+  all_goals
+    have h0 : (0 : ℚ) ≤ |(y : ℚ)| := abs_nonneg _
+    have hl : |(y : ℚ)| ^ 2 * ((2 * a * (2 * a) * c - bq * bq : Int) : ℚ) ≤ ((2 * a * (2 * a) * n : Int) : ℚ) := by
+      rw [sq_abs]
+      have : (((2 * a * (2 * a) * c - bq * bq) * (y * y) : Int) : ℚ) ≤ ((2 * a * (2 * a) * n : Int) : ℚ) := by
+        exact_mod_cast hy
+      push_cast at this ⊢
+      nlinarith
+    have := hbyu _ h0 hl
+    simp only [Int.cast_zero, Int.cast_one, zero_div, add_zero] at this
+  · have h1 : -(y : ℚ) ≤ |(y : ℚ)| := neg_le_abs _
+    have : ((-by' : Int) : ℚ) < y := by push_cast; linarith
+    exact_mod_cast this
+  · have h1 : (y : ℚ) ≤ |(y : ℚ)| := le_abs_self _
+    have : (y : ℚ) < by' := by linarith
+    exact_mod_cast this
+
+/-- on the ellipse `(4ac - b²) y² ≤ 4aN`; this is the code's inequality `(4a²c - b²) y² ≤ 4a²N` when `a = 1` or `b = 0` -/
+theorem ellipse_y {a bq c n x y : Int} (ha : 0 < a) (h : a * x * x + bq * x * y + c * y * y ≤ n) :
+    (a * c * 4 - bq * bq) * (y * y) ≤ 4 * a * n := by
+  have h1 : 0 ≤ (2 * a * x + bq * y) * (2 * a * x + bq * y) := mul_self_nonneg _
+  have h3 : 4 * a * (a * x * x + bq * x * y + c * y * y)
+      = (2 * a * x + bq * y) * (2 * a * x + bq * y) + (a * c * 4 - bq * bq) * (y * y) := by ring
+  have : 4 * a * (a * x * x + bq * x * y + c * y * y) ≤ 4 * a * n := by
+    apply Int.mul_le_mul_of_nonneg_left h; omega
+  omega
+
+theorem code_y_of_ellipse {a bq c n x y : Int} (ha : 0 < a) (hspecial : a = 1 ∨ bq = 0)
+    (h : a * x * x + bq * x * y + c * y * y ≤ n) :
+    (2 * a * (2 * a) * c - bq * bq) * (y * y) ≤ 2 * a * (2 * a) * n := by
+  rcases hspecial with h1 | h0
+  · subst h1
+    have := ellipse_y (by decide : (0 : Int) < 1) h
+    linarith
+  · subst h0
+    have hx : 0 ≤ a * x * x := by
+      have : 0 ≤ x * x := mul_self_nonneg x
+      have := Int.mul_nonneg (Int.le_of_lt ha) this
+      linarith
+    have hcy : c * y * y ≤ n := by linarith
+    have : 2 * a * (2 * a) * (c * y * y) ≤ 2 * a * (2 * a) * n := by
+      apply Int.mul_le_mul_of_nonneg_left hcy; positivity
+    linarith
+
+/-- the fields of `pre` -/
+theorem enumPre_spec {q : Int} {tmc : V2} {b : M2} {nb : Int} {pre : EnumPre} (h : enumPre q tmc b nb = some pre) :
+    0 < qfA q b * qfC q b * 4 - qfB q b * qfB q b ∧
+    pre.fourA2NormBound = 2 * qfA q b * (2 * qfA q b) * nbeOf q tmc nb ∧
+    pre.fourA2CMinusB2 = 2 * qfA q b * (2 * qfA q b) * qfC q b - qfB q b * qfB q b ∧
+    pre.fourA3 = 2 * qfA q b * (2 * qfA q b) * qfA q b ∧ pre.twoA = 2 * qfA q b ∧ pre.qfB = qfB q b ∧
+    boundGen (2 * qfA q b * (2 * qfA q b) * nbeOf q tmc nb)
+      (2 * qfA q b * (2 * qfA q b) * qfC q b - qfB q b * qfB q b) 0 1 = some (some pre.boundY) := by
+  simp only [enumPre] at h
+  split at h
+  · simp at h
+  · rename_i hd
+    split at h
+    · rename_i boundY hb
+      simp only [Option.some.injEq] at h
+      subst h
+      exact ⟨by omega, rfl, rfl, rfl, rfl, rfl, hb⟩
+    · simp at h
+
+/-- **what the enumerated box contains**: every integer point `(x,y)` of the centred ellipse
+    `a x² + b x y + c y² ≤ norm_bound_for_enumeration` has its `x` strictly inside the x-range of row `y`; and `y` is
+    strictly inside `[-bound_y, bound_y]` provided `(4a²c - b²) y² ≤ 4a² N` — which follows from the ellipse when
+    `a = 1` or `b = 0`, but NOT in general (`enumeration_box_misses_ellipse`). -/
+theorem box_contains {q : Int} {tmc : V2} {b : M2} {nb : Int} {pre : EnumPre} (hpre : enumPre q tmc b nb = some pre)
+    (ha : 0 < qfA q b) {x y : Int}
+    (h : qfA q b * x * x + qfB q b * x * y + qfC q b * y * y ≤ nbeOf q tmc nb) :
+    (∃ lo hi, rowBounds pre y = some (lo, hi) ∧ lo < x ∧ x < hi) ∧
+    ((2 * qfA q b * (2 * qfA q b) * qfC q b - qfB q b * qfB q b) * (y * y) ≤ 2 * qfA q b * (2 * qfA q b) * nbeOf q tmc nb →
+      -pre.boundY < y ∧ y < pre.boundY) := by
+  obtain ⟨hdisc, e1, e2, e3, e4, e5, hby⟩ := enumPre_spec hpre
+  constructor
+  · obtain ⟨bx, xv, h1, h2, h3, h4⟩ := x_range_covers ha hdisc h
+    refine ⟨-xv, bx, ?_, h3, h4⟩
+    simp only [rowBounds, e1, e2, e3, e4, e5, h1, h2]
+  · intro hy
+    have hn : 0 ≤ nbeOf q tmc nb := le_trans (qf_nonneg ha hdisc) h
+    obtain ⟨by', hb1, hb2, hb3⟩ := y_range_covers ha hdisc hn hy
+    rw [hby] at hb1
+    simp only [Option.some.injEq] at hb1
+    subst hb1
+    exact ⟨hb2, hb3⟩
+
 end SqiProofs.LllEnum
